@@ -14,8 +14,8 @@ TLS_BASED = ["tls", "btls", "utls", "utlst"]
 
 def scenarios(tp):
     if tp == "utlst":           # a utls client of a plain tls server: the TLS leg of utls
-        return ["normal", "garbage2", "ctlflood", "blocking", "longidle"]
-    s = ["normal", "refused", "idle", "ctlflood", "blocking", "accfail"]
+        return ["normal", "garbage2", "ctlflood", "blocking", "longidle", "ctl3"]
+    s = ["normal", "refused", "idle", "ctlflood", "blocking", "accfail", "ctl3"]
     if tp in TCP_BASED:
         s.append("silent")
         s.append("longidle")
